@@ -28,11 +28,11 @@ crate::verif_harness! {
 
 /// new-format palette chunk: Ok iff header fits, last >= first and last-first+1 entries can be read;
 /// then exactly the indices first..=last are present with the stored RGBA and optional name.
-fn check_palette_chunk(data: &[u8], max_entries: u32) -> bool {
+pub(crate) fn check_palette_chunk(data: &[u8], max_entries: u32) -> bool {
     let got = parse_chunk(data);
     let decoded_ok = got.is_ok();
     let mut want = false;
-    let mut offs = [0usize; 4];
+    let mut offs = [0usize; 16];
     let mut first = 0u32;
     let mut n = 0u32;
     if let Some(h) = fmt::palette_head(data) {
@@ -117,12 +117,12 @@ palette_shape!(k_palette_chunk_26, 26, 4, true, [[]]); // one unnamed entry
 palette_shape!(k_palette_chunk_35, 35, 9, true, [[(26, 7)], [(26, 1)]]); // one named entry / named + unnamed
 
 /// legacy chunks 0x0004 / 0x0011: opaque entries at the cumulative packet offsets (sum of the skip bytes).
-fn check_old_chunk(data: &[u8], six_bit: bool) -> bool {
+pub(crate) fn check_old_chunk(data: &[u8], six_bit: bool) -> bool {
     let got = if six_bit { parse_old_chunk_11(data) } else { parse_old_chunk_04(data) };
     let decoded_ok = got.is_ok();
     // spec walk over <= 2 packets x <= 3 colours (bounded by the payload size of the harness)
     let mut ok = fmt::le_u16(data, 0).is_some();
-    let mut expect: [(u32, [u8; 4]); 6] = [(0, [0; 4]); 6];
+    let mut expect: [(u32, [u8; 4]); 40] = [(0, [0; 4]); 40];
     let mut ne = 0usize;
     if ok {
         let packets = fmt::le_u16(data, 0).unwrap();
@@ -142,7 +142,7 @@ fn check_old_chunk(data: &[u8], six_bit: bool) -> bool {
             p += 2;
             let mut c = 0;
             while c < count {
-                if p + 3 > data.len() || ne >= 6 {
+                if p + 3 > data.len() || ne >= 40 {
                     ok = false;
                     break;
                 }
